@@ -656,6 +656,10 @@ func writeTypeConversion(w *formatting.IndentedWriter, typeChange dsl.TypeChange
 			w.Indented(func() {
 				fmt.Fprintf(w, "%s = std::get<%d>(%s);\n", targetName, tc.TypeIndex, sourceName)
 			})
+			fmt.Fprintf(w, "} else {\n")
+			w.Indented(func() {
+				fmt.Fprintf(w, "throw std::runtime_error(\"Union case incompatible with target type '%s'\");\n", dsl.TypeToShortSyntax(tc.OldType(), false))
+			})
 			fmt.Fprintf(w, "}\n")
 		} else {
 			// Reading a Scalar into a Union
@@ -670,6 +674,14 @@ func writeTypeConversion(w *formatting.IndentedWriter, typeChange dsl.TypeChange
 			fmt.Fprintf(w, "if (%s.index() == %d) {\n", sourceName, tc.TypeIndex)
 			w.Indented(func() {
 				fmt.Fprintf(w, "%s = std::get<%d>(%s);\n", targetName, tc.TypeIndex, sourceName)
+			})
+			fmt.Fprintf(w, "} else if (std::holds_alternative<std::monostate>(%s)) {\n", sourceName)
+			w.Indented(func() {
+				fmt.Fprintf(w, "%s = std::nullopt;\n", targetName)
+			})
+			fmt.Fprintf(w, "} else {\n")
+			w.Indented(func() {
+				fmt.Fprintf(w, "throw std::runtime_error(\"Union case incompatible with target type '%s'\");\n", dsl.TypeToShortSyntax(tc.OldType(), false))
 			})
 			fmt.Fprintf(w, "}\n")
 		} else {
